@@ -246,7 +246,7 @@ func runCheck(spec *PropSpec, tier string, seed int, accept, verbose bool, overl
 	var known []KnownFinding
 	_ = loadJSON(filepath.Join(verifRoot, "known_findings.json"), &known)
 
-	workDir := filepath.Join(verifRoot, "work", id)
+	workDir := filepath.Join(verifRoot, "work", id+os.Getenv("GOWP_WORK_SUFFIX")) // the suffix separates parallel self-test runs
 	os.RemoveAll(workDir)
 	os.MkdirAll(workDir, 0o755)
 	var results []*funcResult
@@ -519,7 +519,7 @@ func runCheck(spec *PropSpec, tier string, seed int, accept, verbose bool, overl
 						expectFail = true // a listed finding (of this or another property sharing the function)
 					}
 				}
-				out, passed, err := goTestOverlay(h.Dir, h.Pkg, filepath.Join(verifRoot, "replay", h.Test), h.Run, filepath.Join(verifRoot, "work", id), nil, 300)
+				out, passed, err := goTestOverlay(h.Dir, h.Pkg, filepath.Join(verifRoot, "replay", h.Test), h.Run, filepath.Join(verifRoot, "work", id+os.Getenv("GOWP_WORK_SUFFIX")), nil, 300)
 				rr := map[string]any{"harness": h.Test, "run": h.Run, "obligation": match, "passed": passed, "expected_to_fail": expectFail}
 				if err != nil || strings.Contains(out, "[build failed]") || strings.Contains(out, "[setup failed]") {
 					rr["verdict"] = "harness-does-not-run"
@@ -565,7 +565,7 @@ func runCheck(spec *PropSpec, tier string, seed int, accept, verbose bool, overl
 								expectFail = true
 							}
 						}
-						out, passed, err := goTestOverlay(h.Dir, h.Pkg, filepath.Join(verifRoot, "replay", h.Test), h.Run, filepath.Join(verifRoot, "work", id), nil, 300)
+						out, passed, err := goTestOverlay(h.Dir, h.Pkg, filepath.Join(verifRoot, "replay", h.Test), h.Run, filepath.Join(verifRoot, "work", id+os.Getenv("GOWP_WORK_SUFFIX")), nil, 300)
 						if err == nil && !passed && !expectFail && !strings.Contains(out, "[build failed]") && !strings.Contains(out, "[setup failed]") {
 							boundedViol++
 							rp := writeReplay(id, "replay/"+h.Test, map[string]any{"obligation": n, "kind": "replay", "harness": h.Test, "run": h.Run, "output": out, "note": "the contract of " + k + " no longer binds; the replay harness of this obligation fails on the current tree"})
@@ -767,7 +767,7 @@ func runCheck(spec *PropSpec, tier string, seed int, accept, verbose bool, overl
 }
 
 func writeReplay(id, obl string, content map[string]any) string {
-	dir := filepath.Join(verifRoot, "replays", id)
+	dir := filepath.Join(verifRoot, "replays", id+os.Getenv("GOWP_WORK_SUFFIX"))
 	os.MkdirAll(dir, 0o755)
 	p := filepath.Join(dir, clean(lastN(obl, 100))+".json")
 	b, _ := json.MarshalIndent(content, "", " ")
@@ -783,7 +783,7 @@ func replayViolation(w *World, spec *PropSpec, lr *logicalResult) (string, bool)
 		m := map[string]any{"query": v.Obl.Name, "solver": v.Solver, "verdict": v.Status, "solver_output": v.Detail, "ms": v.Ms}
 		if b, err := os.ReadFile(v.File); err == nil {
 			// keep the SMT query next to the replay file
-			dst := filepath.Join(verifRoot, "replays", spec.ID, filepath.Base(v.File))
+			dst := filepath.Join(verifRoot, "replays", spec.ID+os.Getenv("GOWP_WORK_SUFFIX"), filepath.Base(v.File))
 			os.MkdirAll(filepath.Dir(dst), 0o755)
 			os.WriteFile(dst, b, 0o644)
 			m["smt_file"] = dst
